@@ -13,17 +13,20 @@ TEXT = {
             'reference least-squares solver in exact rational arithmetic (feasibility, objective-gap optimality, parameters, '
             'chi^2 = minimum + penalties). Sampling of a continuous domain: strong evidence, not proof.'),
     'C02': ('exploration', 'hypothesis @given + reference distance-grid fitter (differential oracle)',
-            'Generated aperture-dependent packages in both formats; the distance grid, aperture interpolation, (1kpc/d)^2 '
-            'scaling, clipped 1-parameter optimum and grid minimum are recomputed by an independent reference.'),
+            'Generated aperture-dependent packages in both formats (aperture tables stored in any order and unit, per-filter tables, '
+            'shared angular apertures); the distance grid, aperture interpolation, (1kpc/d)^2 scaling, clipped 1-parameter optimum '
+            'and grid minimum are recomputed by an independent reference.'),
     'C03': ('exploration', 'exhaustive flag-vector enumeration x generated photometry, metamorphic pairs',
             'Every flag vector in {0,1,2,3,4,9}^n (n<=4 quick, n<=5 thorough) is enumerated; for each, paired fits that differ '
             'only in ignored / equivalent content are compared in both fitting modes.'),
     'C04': ('exploration', 'hypothesis @given + per-row recomputation from the named model',
-            'Generated fits with forced ties and infinite chi^2; permutation, ordering and per-row consistency are checked '
-            'against values recomputed from the model named in each row.'),
+            'Generated fits with forced ties and 1e30 tiers; permutation, ordering and per-row consistency are checked against values '
+            'recomputed from the model named in each row; FitInfo.sort() is additionally enumerated over all chi^2 vectors of '
+            'length <=5 with inf/NaN anywhere in package order.'),
     'C05': ('exploration', 'exhaustive enumeration + hypothesis stateful machine vs list model',
             'All chi^2 vectors of length 0..5 over an alphabet with ties/inf/NaN x all selector forms are enumerated against a '
-            'reference predicate; longer vectors and keep() compositions are explored with a rule-based state machine.'),
+            'reference predicate; longer vectors and keep() compositions (interleaved with in-place edits of the source flags) are '
+            'explored with a rule-based state machine.'),
     'C06': ('exploration', 'hypothesis @given + exact piecewise-linear integrator (differential + metamorphic)',
             'Generated filters and SED grids on an integer lattice (forcing coincidences) and irregular grids; each rebinned '
             'response is compared with an exact Fraction integral; sum, normalisation, linearity and quadrature are checked.'),
@@ -31,8 +34,9 @@ TEXT = {
             'Generated packages emitted in both formats by an independent writer; convolved files are read by an independent '
             'reader and compared row by row with reference integrals and with each other; fits from all variants compared.'),
     'C08': ('exploration', 'hypothesis @given end-to-end planted-model recovery',
-            'Planted (model, A_V, scale/distance) photometry is pushed through convolve -> fit -> write_parameters and the first '
-            'record / first row must recover the plant.'),
+            'Planted (model, A_V, scale/distance) photometry for 1..3 sources per data file is pushed through convolve -> fit -> '
+            'write_parameters (parameter rows optionally re-ordered after convolution, SED files / cubes stored in several units) '
+            'and the first record / listing rows must recover each plant.'),
     'C09': ('exploration', 'hypothesis @given + text re-parsing against the unpermuted abstract table',
             'Generated FitInfo objects and permuted parameter files; the three text outputs are parsed back and compared by '
             'model name with the abstract table.'),
@@ -60,8 +64,9 @@ TEXT = {
     'C18': ('exploration', 'hypothesis @given + multiset/ordering oracle on the two output files',
             'Generated FitInfo sequences split by chi/cpd; outputs read back and compared bit-exactly with the input.'),
     'C19': ('fault_enumeration', 'exhaustive truncation-offset enumeration of generated files',
-            'Every truncation offset 0..len-1 of generated fit output files is tried; reading must raise or give an exact '
-            'prefix of the written records.'),
+            'Every truncation offset 0..len-1 of generated fit output files is tried (files holding a record of thousands of fits '
+            'are sampled densely at both ends and around record boundaries); reading must raise or give an exact prefix of the '
+            'written records.'),
     'C20': ('exploration', 'hypothesis @given + reference parser, every column count per line',
             'Generated data lines x every column count 0..3n+6 against a reference parser written from data.rst; ascii, '
             'dict and pickle round trips.'),
